@@ -3,7 +3,7 @@ usage: python -m vf.seedkeep  (reads /tmp/seed/out/*/{A,B} and /tmp/seed/eval/*.
 import os, json, shutil, glob, re
 HERE = os.path.dirname(os.path.dirname(os.path.abspath(__file__)))
 OUT = os.path.join(HERE, "seeded")
-NEEDS = {}
+NEEDS = json.load(open(os.path.join(HERE, "vf", "seedneeds.json")))
 
 
 def main():
@@ -31,7 +31,7 @@ def main():
         meta.update({
             "id": sid, "breaks_property": prop,
             "origin": "written by a fresh sub-agent given only the property text and its own scratch worktree",
-            "needs_to_manifest": meta.get("needs_to_manifest") or _needs(notes),
+            "needs_to_manifest": NEEDS.get(sid) or meta.get("needs_to_manifest") or _needs(notes),
             "confirmed_by": {"demo_exit_clean_tree": d.get("demo_clean_exit"), "demo_exit_with_patch": d.get("demo_patched_exit"),
                              "stable_tests_unchanged": d.get("tests_same"), "stable_tests_passed": d.get("tests_patched_passed"),
                              "how": "python -m vf.seedeval (scratch worktree of /repo HEAD; demo run without and with the patch; PASSED set of the pinned suite compared)"},
@@ -43,19 +43,25 @@ def main():
         json.dump(meta, open(meta_path, "w"), indent=1)
     # README
     lines = ["# Seeded changes", "",
-             "Each directory holds `patch.diff` (apply with `git -C /repo apply`), `demo.py` (exits 1 with the change, 0 without), the author's `notes.md`, and `meta.json`.",
-             "Checks were run against a patched checkout (`VERIF_REPO=<worktree> ./check …`), never committed to /repo.", "",
-             "| seed | property | caught by | tier | signature of the reported violation | needs to manifest |", "|---|---|---|---|---|---|"]
+             "Written by fresh sub-agents that were given only the text of one property and their own scratch worktree of /repo (nothing from /verif).",
+             "Each directory holds `patch.diff` (apply with `git -C /repo apply`), `demo.py` (exits 1 with the change, 0 without), the author's `notes.md`, and `meta.json`",
+             "(what it breaks, what it needs to manifest, how it was confirmed, every run of my checks against it).",
+             "Every seed was confirmed by me in a scratch worktree: demo passes on the clean tree, fails with the patch, and the pinned suite's PASSED set is unchanged (`vf/seedeval.py`).",
+             "Checks were run against a patched checkout (`VERIF_REPO=<worktree> ./check <id> --tier quick`), never committed to /repo.", "",
+             "`first run` = the check as it stood when the seed arrived; `now` = after the strengthening described in DESIGN.md §5/§9 (blank = unchanged, caught from the start).", "",
+             "| seed | breaks | first run | now | signature of the reported violation | needs to manifest |", "|---|---|---|---|---|---|"]
     for mp in sorted(glob.glob(os.path.join(OUT, "C*", "meta.json"))):
         m = json.load(open(mp))
-        runs = m.get("check_runs", [])
-        caught = [r for r in runs if r.get("caught")]
-        best = caught[0] if caught else (runs[-1] if runs else {})
-        sig = (best.get("signatures") or [""])[0].replace("|", "\\|")[:140]
-        lines.append("| %s | %s | %s | %s | %s | %s |" % (m["id"], m["breaks_property"], "yes: " + best.get("check", "") if caught else "**MISSED** (%s)" % "; ".join(r.get("check", "") for r in runs),
-                                                      "", sig, (m.get("needs_to_manifest") or "").replace("|", "/").replace("\n", " ")[:220]))
+        runs = sorted(m.get("check_runs", []), key=lambda r: r.get("eval_file", ""))
+        first = runs[0] if runs else {}
+        last = runs[-1] if len(runs) > 1 else None
+        best = next((r for r in reversed(runs) if r.get("caught")), first)
+        sig = (best.get("signatures") or [""])[0].replace("|", "\\|")[:150]
+        f1 = "caught" if first.get("caught") else "**missed**"
+        f2 = "" if last is None else ("caught" if last.get("caught") else "**missed**")
+        lines.append("| %s | %s | %s | %s | %s | %s |" % (m["id"], m["breaks_property"], f1, f2, sig, (m.get("needs_to_manifest") or "").replace("|", "/").replace("\n", " ")[:260]))
     open(os.path.join(OUT, "README.md"), "w").write("\n".join(lines) + "\n")
-    print("\n".join(lines[6:]))
+    print("\n".join(lines[10:]))
 
 
 def _needs(notes):
